@@ -653,6 +653,22 @@ func ReachFromEdgesThrough(starts, avoid []Edge, through map[*ssa.BasicBlock]boo
 	return reachOpts(nil, starts, av, nil, through)
 }
 
+// MustPass is dominance over feasible paths: every path from the function's
+// entry to block b that the path-sensitive search can take passes block a.
+// (If a dominates b it holds; it also holds when the only paths around a are
+// infeasible, e.g. the error returns of an inlined helper that the caller's
+// `if err != nil` sends elsewhere.)
+func MustPass(a, b *ssa.BasicBlock) bool {
+	if a == b {
+		return true
+	}
+	if a.Dominates(b) {
+		return true
+	}
+	seen := ReachFromEntry(a.Parent(), map[*ssa.BasicBlock]bool{a: true}, nil)
+	return !seen[b]
+}
+
 // Posf renders positions; set by the loader's user.
 type Posf func(token.Pos) string
 
